@@ -192,16 +192,13 @@ theorem runN_tr (env : Env) (hp : ProperEnv env) : ∀ d, CalleeTr (runN env d) 
       intro s1' hse v
       unfold St.pop
       have h2 := sameExc_popEdge env s1'.dropFrame n
+      have h3 := drainSame env (s1'.dropFrame.popEdge env n) n
       refine ⟨?_, ?_, suf, ?_, ?_, by intro e he; cases he⟩
-      · show (s1'.dropFrame.popEdge env n).stack = s.stack
-        rw [h2.stack]; simp [St.dropFrame, hse.stack, hstack]
-      · show s.curExc ≤ (s1'.dropFrame.popEdge env n).curExc
-        rw [h2.curExc]; simp only [St.dropFrame]; rw [hse.curExc]; exact hmono
-      · show (s1'.dropFrame.popEdge env n).rolledback = s.rolledback ++ suf
-        rw [h2.rolledback]; simp only [St.dropFrame]; rw [hse.rolledback]; exact hrb
+      · rw [h3.stack, h2.stack]; simp [St.dropFrame, hse.stack, hstack]
+      · rw [h3.curExc, h2.curExc]; simp only [St.dropFrame]; rw [hse.curExc]; exact hmono
+      · rw [h3.rolledback, h2.rolledback]; simp only [St.dropFrame]; rw [hse.rolledback]; exact hrb
       · intro e he
-        show s.curExc < e.2 ∧ e.2 ≤ (s1'.dropFrame.popEdge env n).curExc
-        rw [h2.curExc]; simp only [St.dropFrame]; rw [hse.curExc]; exact hids' e he
+        rw [h3.curExc, h2.curExc]; simp only [St.dropFrame]; rw [hse.curExc]; exact hids' e he
     cases r with
     | err e =>
       simp only []
